@@ -17,7 +17,8 @@ def run_part(ctx):
         "index below the size and every permutation",
         "mutexes are not modelled (sequential histories); atomicity of the methods is tied to the code only by the Go-side forced-interleaving "
         "family (harness/cmd/c12a/conc.go: calls queued behind a writer parked in a harness-supplied callback or behind the held mutex, judged by "
-        "'some sequential order explains all results') and the thread-safe stack's concurrent push smoke test",
+        "'some sequential order explains all results'), the free-running family (free.go: 2-4 goroutines per container for a fixed time, conservation "
+        "oracles, also under the race detector) and the thread-safe stack's concurrent push smoke test",
     ])
     if thorough:
         for k in range(5):
@@ -26,11 +27,22 @@ def run_part(ctx):
         ctx.seed -= 5000
     else:
         ctx.corr(hx, ["hist", "--n", "600", "--len", "30"], cases_name="c12a_cases.v")
+    # free-running concurrent family (no Coq cases): plain build, then the same under the race detector
+    ms = "400" if thorough else "200"
+    rounds = "4" if thorough else "1"
+    ctx.corr(hx, ["free", "--ms", ms, "--rounds", rounds], cases_name="c12a_free.v")
+    try:
+        race_free(ctx, ["free", "--ms", ms, "--rounds", rounds])
+        ctx.assumptions.append("c12a: the free-running family also ran from a -race build without a data race report (a report is a VIOLATION)")
+    except RuntimeError as ex:
+        ctx.log("race build unavailable: %s" % ex)
+        ctx.assumptions.append("c12a: race-detector build not available on this machine: the free-running family ran without it")
     ctx.assumptions += [
         "c12a: the C12 theorems quantify over SEQUENTIAL operation histories; that every method of the thread-safe containers is atomic (so that "
         "concurrent use is some sequential history) is not proved: it is tied to the code by the forced-interleaving family only (GetOrCreate / Compute / "
         "Delete-with-condition of ShrinkingMap parked inside their callbacks, all containers behind their held mutex; 2-4 queued calls; oracle: a sequential "
-        "order of the calls explains every result, callback count and the final contents)",
+        "order of the calls explains every result, callback count and the final contents) and by the free-running family (all six containers, "
+        "2-4 goroutines for a fixed time, schedule-independent conservation oracles, plain and -race builds)",
         "c12a: timed.PriorityQueue priorities are abstract instants; the harness renders every key and PopUntil bound in a randomly chosen time.Time "
         "representation of its instant (with/without monotonic reading, Local/UTC/fixed zones, rebuilt from Unix nanoseconds); the ds queue's keys carry a "
         "tag its comparator ignores (equal but not identical keys)",
@@ -39,6 +51,35 @@ def run_part(ctx):
         "c12a: Queue/RingBuffer refinement is guarded by capacity >= 1 (capacity 0 panics in ForceOffer/Add: modelled and checked as a panic outcome); negative capacities panic in make()",
         "c12a: Go map iteration order is unconstrained: Pop's choice is replayed from the observation, listings are compared sorted",
     ]
+
+
+def race_free(ctx, args):
+    """Runs the free-running concurrent family from a -race build; a reported data race is a violation (replay = the run itself)."""
+    import glob, os
+    hxr = ctx.go_build("c12a", race=True)
+    logp = os.path.join(ctx.build, "c12a_race_log")
+    for f in glob.glob(logp + ".*"):
+        os.remove(f)
+    old = os.environ.get("GORACE")
+    os.environ["GORACE"] = "exitcode=0 log_path=" + logp
+    try:
+        ctx.corr(hxr, args, cases_name="c12a_free_race.v", timeout=600)
+    finally:
+        if old is None:
+            del os.environ["GORACE"]
+        else:
+            os.environ["GORACE"] = old
+    reports = ""
+    for f in sorted(glob.glob(logp + ".*")):
+        reports += open(f, errors="replace").read()
+    n = reports.count("WARNING: DATA RACE")
+    ctx.cov.setdefault("extra", {})["c12a_race_reports"] = n
+    if n:
+        ctx.violation({"kind": "data-race-between-method-calls", "reports": n, "seed": ctx.seed,
+                       "case": {"c12a_free_race": True, "args": args},
+                       "what": "the Go race detector saw unsynchronised accesses between concurrent method calls of a goroutine-safe container: "
+                               "its methods are not atomic steps (the reading under which the sequential C12 theorems apply to concurrent use)",
+                       "first_report": reports[:3500], "replay": "bin/check C12 --replay <this file>"}, tag="race")
 
 
 def run(ctx):
